@@ -335,8 +335,8 @@ func DrawType(t *rapid.T, depth int) *TypeR {
 	for i := 0; i < n; i++ {
 		name := rapid.SampledFrom(fieldNames).Draw(t, "fname")
 		name = strings.ToUpper(name[:1]) + name[1:]
-		for used[strings.ToLower(name)] {
-			name += "x"
+		for used[strings.ToLower(name)] || usedTag[strings.ToLower(name)] {
+			name += "x" // no field name may equal another field's tag name: Recompose honours tags whatever wrote the data
 		}
 		used[strings.ToLower(name)] = true
 		f := FieldR{Name: name}
@@ -359,10 +359,10 @@ func DrawType(t *rapid.T, depth int) *TypeR {
 		}
 		if strings.Contains(form, "%s") {
 			tn := rapid.SampledFrom(tagNames).Draw(t, "tagname")
-			for usedTag[tn] || used[strings.ToLower(tn)] {
+			for usedTag[strings.ToLower(tn)] || used[strings.ToLower(tn)] {
 				tn += "2"
 			}
-			usedTag[tn] = true
+			usedTag[strings.ToLower(tn)] = true
 			form = fmt.Sprintf(form, tn)
 		}
 		if strings.Contains(form, ",string") {
@@ -660,6 +660,15 @@ func Encode(rv reflect.Value, o EncOpts, feats map[string]bool) *ENode {
 				key = LowKey(sf.Name)
 			}
 			fv := rv.Field(i)
+			if sf.Anonymous && fv.Kind() == reflect.Ptr && fv.Type().Elem().Kind() == reflect.Struct && !o.NestEmbed {
+				feats["embedded-pointer"] = true
+				if fv.IsNil() {
+					// nothing to promote (encoding/json omits the fields as well)
+					feats["embedded-pointer-nil"] = true
+					continue
+				}
+				fv = fv.Elem()
+			}
 			if sf.Anonymous && fv.Kind() == reflect.Struct && !o.NestEmbed {
 				// embedded struct: its fields are promoted into the parent
 				feats["embedded-flattened"] = true
